@@ -18,4 +18,6 @@ INVARIANT TerminatedOnce
 INVARIANT NoThreadAlive
 INVARIANT PlayRaisesAfterClose
 INVARIANT WaitsForAll
+INVARIANT SecondCloseIsNoOp
+INVARIANT StopIsPrompt
 CHECK_DEADLOCK FALSE
